@@ -43,12 +43,20 @@ package commonmark
 // ---------------------------------------------------------------------------
 
 //@ func closure(parseATXHeading)
-//@   requires !isnil(p)
+//@   requires !isnil(p) && CursorOK(p)
 //@   modifies everything
-//@   havoccall (*lineParser).Indent, (*lineParser).BytesAfterIndent, (*lineParser).ConsumeIndent, (*lineParser).OpenHeadingBlock, (*lineParser).Advance, (*lineParser).CollectInline, (*lineParser).ConsumeLine, (*lineParser).EndBlock
+//@   havoccall (*lineParser).OpenHeadingBlock, (*lineParser).EndBlock keeps lineParser.i, lineParser.col, lineParser.line, lineParser.tabRemaining, elems:byte
 //@   callsite (*lineParser).OpenHeadingBlock: requires[level] $1 == ATXHeadingKind && 1 <= $2 && $2 <= 6
-//@   unclaimed pre@parseATXHeading the line handed to the recogniser has at most one line ending, at its end (established by readline; the cursor code between is abstracted)
-//@   serves C05
+//@   callsite (*lineParser).OpenHeadingBlock: requires[at-hashes] p.i + $2 <= len(p.line) && (forall k in [0, $2): p.line[p.i + k] == '#')
+//@   callsite (*lineParser).ConsumeIndent: use IndentCols_zero(p.line, p.i + 1, p.col + 1)
+//@   callsite (*lineParser).ConsumeIndent: use IndentCols_zero(p.line, p.i + 1, p.col + p.tabRemaining)
+//@   callsite parseATXHeading: use RunEnd_all($0, '#', 0, BodyLen($0))
+//@   callsite parseATXHeading: use RunEnd_bounds($0, '#', 0, BodyLen($0))
+//@   callsite parseATXHeading: use FirstNonWS_at($0, HashRun($0), BodyLen($0))
+//@   unclaimed pre@parseATXHeading the line handed to the recogniser has at most one line ending, at its end (established by readline; not carried through the block-structure code)
+//@   unclaimed pre@(*lineParser).CollectInline#0:state the container opened by OpenHeadingBlock is non-nil and the parser is not in a terminated state (tree-building state, abstracted here)
+//@   unclaimed pre@(*lineParser).CollectInline#0:linestart the line start is an index into the parser's buffer (tree-building state, abstracted here)
+//@   serves C05, C13, C04
 
 //@ func closure(parseSetextHeadingUnderline)
 //@   requires !isnil(p)
